@@ -76,3 +76,31 @@ fn packed_deltas_runs() {
     delta_run_case(0x41); // two 16-bit deltas
     delta_run_case(0x02); // three 8-bit deltas
 }
+
+//@ harness dsim_entry kind=complete fns=DeltaSetIndexMap::entry,DeltaSetIndexMap::entry_size_impl
+#[kani::proof]
+#[kani::unwind(6)]
+fn dsim_entry() {
+    // DeltaSetIndexMap: entry size ((format & 0x30) >> 4) + 1 bytes, inner index in the low (format & 0x0F) + 1 bits, outer index above;
+    // an index at or beyond mapCount uses the last entry; any entryFormat, 2 entries of up to 4 bytes
+    let format: u8 = kani::any();
+    let data: [u8; 8] = kani::any();
+    let size = (((format & 0x30) >> 4) + 1) as usize;
+    let count: u32 = kani::any();
+    kani::assume(count <= 2);
+    let map = DeltaSetIndexMap { entry_format: format, map_count: count, map_data: &data[..size * count as usize] };
+    let i: u32 = kani::any();
+    match map.entry(i) {
+        Ok(e) => {
+            assert!(count >= 1);
+            let k = if i >= count { count - 1 } else { i } as usize;
+            let mut v: u32 = 0;
+            let mut j = 0;
+            while j < size { v = (v << 8) | data[k * size + j] as u32; j += 1; }
+            let bits = (format & 0x0F) as u32 + 1;
+            assert!(e.inner_index as u32 == (v & ((1u32 << bits) - 1)) & 0xFFFF, "inner index = low bits");
+            assert!(e.outer_index as u32 == (v >> bits) & 0xFFFF, "outer index = the bits above");
+        }
+        Err(_) => assert!(count == 0, "only an empty map has no entry to fall back to"),
+    }
+}
